@@ -16,6 +16,8 @@ import (
 	"strconv"
 	"strings"
 	"unicode/utf8"
+
+	"golang.org/x/tools/go/ssa"
 )
 
 type jkind uint8
@@ -598,5 +600,220 @@ func init() {
 	externals["encoding/json.Valid"] = func(fr *frame, args []value) value {
 		n, _ := parseJSON(fr, bytesOf(args[0]))
 		return n != nil
+	}
+}
+
+// ---------------------------------------------------------------------------
+// encoding/json.Marshal: concrete values are converted to native Go values of
+// dynamically built types (reflect.StructOf with the original tags) and passed
+// to the real encoding/json; types with a MarshalJSON method are called in the
+// interpreter and spliced in as raw JSON. Symbolic parts are not supported.
+
+type marshalFail struct{ msg string }
+
+func (fr *frame) nativeType(T types.Type, depth int) reflect.Type {
+	if depth > 12 {
+		panic(marshalFail{"type too deep"})
+	}
+	if _, ok := T.(*types.Named); ok {
+		if fr.i.findMethod(T, "MarshalJSON") != nil || fr.i.findMethod(types.NewPointer(T), "MarshalJSON") != nil {
+			return reflect.TypeOf(json.RawMessage(nil))
+		}
+		if T.String() == "time.Time" {
+			return reflect.TypeOf("")
+		}
+	}
+	switch U := T.Underlying().(type) {
+	case *types.Basic:
+		switch U.Kind() {
+		case types.Bool:
+			return reflect.TypeOf(false)
+		case types.String:
+			return reflect.TypeOf("")
+		case types.Int:
+			return reflect.TypeOf(int(0))
+		case types.Int8:
+			return reflect.TypeOf(int8(0))
+		case types.Int16:
+			return reflect.TypeOf(int16(0))
+		case types.Int32:
+			return reflect.TypeOf(int32(0))
+		case types.Int64:
+			return reflect.TypeOf(int64(0))
+		case types.Uint:
+			return reflect.TypeOf(uint(0))
+		case types.Uint8:
+			return reflect.TypeOf(uint8(0))
+		case types.Uint16:
+			return reflect.TypeOf(uint16(0))
+		case types.Uint32:
+			return reflect.TypeOf(uint32(0))
+		case types.Uint64:
+			return reflect.TypeOf(uint64(0))
+		case types.Float32:
+			return reflect.TypeOf(float32(0))
+		case types.Float64:
+			return reflect.TypeOf(float64(0))
+		}
+	case *types.Pointer:
+		return reflect.PointerTo(fr.nativeType(U.Elem(), depth+1))
+	case *types.Slice:
+		return reflect.SliceOf(fr.nativeType(U.Elem(), depth+1))
+	case *types.Array:
+		return reflect.ArrayOf(int(U.Len()), fr.nativeType(U.Elem(), depth+1))
+	case *types.Map:
+		return reflect.MapOf(fr.nativeType(U.Key(), depth+1), fr.nativeType(U.Elem(), depth+1))
+	case *types.Interface:
+		return reflect.TypeOf((*interface{})(nil)).Elem()
+	case *types.Struct:
+		var fs []reflect.StructField
+		for i := 0; i < U.NumFields(); i++ {
+			f := U.Field(i)
+			if !f.Exported() {
+				continue
+			}
+			fs = append(fs, reflect.StructField{Name: f.Name(), Type: fr.nativeType(f.Type(), depth+1), Tag: reflect.StructTag(U.Tag(i)), Anonymous: false})
+		}
+		return reflect.StructOf(fs)
+	}
+	panic(marshalFail{"unsupported type for json.Marshal model: " + T.String()})
+}
+
+func (fr *frame) nativeValue(v value, T types.Type, depth int) reflect.Value {
+	rt := fr.nativeType(T, depth)
+	out := reflect.New(rt).Elem()
+	if _, ok := T.(*types.Named); ok {
+		var m *ssa.Function
+		recv := v
+		if m = fr.i.findMethod(T, "MarshalJSON"); m == nil {
+			if m = fr.i.findMethod(types.NewPointer(T), "MarshalJSON"); m != nil {
+				cell := v
+				recv = &cell
+			}
+		}
+		if m != nil {
+			res := call(fr.i, fr, 0, m, []value{recv}).(tuple)
+			if e := res[1].(iface); e.t != nil {
+				panic(marshalFail{fr.i.errorString(e)})
+			}
+			out.SetBytes(fr.concBytes(res[0].([]value)))
+			return out
+		}
+		if T.String() == "time.Time" {
+			out.SetString("2001-01-01T00:00:00Z")
+			return out
+		}
+	}
+	switch U := T.Underlying().(type) {
+	case *types.Basic:
+		switch x := v.(type) {
+		case bool:
+			out.SetBool(x)
+		case string:
+			out.SetString(x)
+		case sstring:
+			out.SetString(string(fr.concBytes(x.b)))
+		case float32:
+			out.SetFloat(float64(x))
+		case float64:
+			out.SetFloat(x)
+		default:
+			c := fr.concValue(v)
+			if kindSigned(U.Kind()) {
+				out.SetInt(asInt64(c))
+			} else {
+				_, bits, _ := concKind(c)
+				out.SetUint(bits)
+			}
+		}
+	case *types.Pointer:
+		p, _ := v.(*value)
+		if p == nil {
+			return out
+		}
+		e := fr.nativeValue(load(U.Elem(), p), U.Elem(), depth+1)
+		pv := reflect.New(e.Type())
+		pv.Elem().Set(e)
+		out.Set(pv)
+	case *types.Slice:
+		s, _ := v.([]value)
+		if s == nil {
+			return out
+		}
+		out.Set(reflect.MakeSlice(rt, len(s), len(s)))
+		for i, e := range s {
+			out.Index(i).Set(fr.nativeValue(e, U.Elem(), depth+1))
+		}
+	case *types.Array:
+		for i, e := range v.(array) {
+			out.Index(i).Set(fr.nativeValue(e, U.Elem(), depth+1))
+		}
+	case *types.Map:
+		m, _ := v.(*omap)
+		if m == nil {
+			return out
+		}
+		out.Set(reflect.MakeMap(rt))
+		for i, k := range m.keys {
+			if m.live[i] {
+				out.SetMapIndex(fr.nativeValue(k, U.Key(), depth+1), fr.nativeValue(m.vals[i], U.Elem(), depth+1))
+			}
+		}
+	case *types.Interface:
+		iv := v.(iface)
+		if iv.t == nil {
+			return out
+		}
+		out.Set(fr.nativeValue(iv.v, iv.t, depth+1))
+	case *types.Struct:
+		sv := v.(structure)
+		j := 0
+		for i := 0; i < U.NumFields(); i++ {
+			if !U.Field(i).Exported() {
+				continue
+			}
+			out.Field(j).Set(fr.nativeValue(sv[i], U.Field(i).Type(), depth+1))
+			j++
+		}
+	}
+	return out
+}
+
+func (fr *frame) concBytes(b []value) []byte {
+	r := make([]byte, len(b))
+	for i, e := range b {
+		r[i] = fr.concValue(e).(uint8)
+	}
+	return r
+}
+
+func extJSONMarshal(fr *frame, args []value) (res value) {
+	fr.i.noteAssumption("encoding/json.Marshal runs the real encoder on values rebuilt natively from the interpreter state (symbolic parts are made concrete first)")
+	defer func() {
+		if r := recover(); r != nil {
+			if mf, ok := r.(marshalFail); ok {
+				res = tuple{[]value(nil), fr.newError("json: " + mf.msg)}
+				return
+			}
+			panic(r)
+		}
+	}()
+	in := args[0].(iface)
+	if in.t == nil {
+		return tuple{strBytes("null"), nilError()}
+	}
+	nv := fr.nativeValue(in.v, in.t, 0)
+	b, err := json.Marshal(nv.Interface())
+	if err != nil {
+		return tuple{[]value(nil), fr.newError(err.Error())}
+	}
+	return tuple{strBytes(string(b)), nilError()}
+}
+
+func init() {
+	externals["encoding/json.Marshal"] = extJSONMarshal
+	externals["encoding/json.MarshalIndent"] = func(fr *frame, args []value) value {
+		r := extJSONMarshal(fr, args[:1]).(tuple)
+		return r
 	}
 }
